@@ -532,8 +532,13 @@ func runScenario(r *rand.Rand, scn int, nq, nwrites int, garble bool) ([]Ev, err
 			break
 		}
 		act := acts[r.Intn(len(acts))]
-		if len(script) > 0 && len(parked) == 0 && writesLeft > 0 {
-			act, script = script[0], script[1:]
+		if len(script) > 0 {
+			// the directed opening comes first: let the queries finish their first run, then the scripted steps
+			if len(parked) > 0 {
+				act = "release"
+			} else {
+				act, script = script[0], script[1:]
+			}
 		}
 		switch act {
 		case "release":
